@@ -37,6 +37,8 @@ def main():
     if os.path.isdir(sdir):
         for f in sorted(os.listdir(sdir)):
             pd = os.path.join(sdir, f, "patch.diff")
+            if os.path.exists(os.path.join(sdir, f, "OBSOLETE.md")):
+                continue
             if os.path.exists(pd):
                 items.append((f, pd, os.path.join(sdir, f, "check.py")))
     if args.names:
